@@ -21,6 +21,7 @@
 //   require github.com/blues/jsonata-go v0.0.0
 //   replace github.com/blues/jsonata-go => /repo
 //   EOF
+//   (to validate against a patched tree, point the replace at that tree instead, e.g. a git worktree)
 //   cp /verif/harness/vectors/dates/main.go . && go run . /tmp/dates/out
 //   (compile /verif/coq Base, Model/LibDate.v, Model/LibFormatDate.v, Spec/C19.v, Proofs/LibDateProofs.v first)
 //   cd /tmp/dates/out && coqc -Q /verif/coq JV -Q . DV DV.v
@@ -146,12 +147,17 @@ var defaults = map[byte]string{'Y': "1", 'M': "1", 'D': "1", 'd': "1", 'F': "n",
 
 var reTZ = regexp.MustCompile("^([0-9]+)([^0-9A-Za-z])([0-9]+)$")
 
-func pow10(n int) int {
-	val := 1
-	for i := 0; i < n && i < 100; i++ {
-		val *= 10
+// replica of formatdate.go's lastDigits (only used to enumerate FormatNumber arguments)
+func lastDigits(n, count int) int {
+	const maxInt = int(^uint(0) >> 1)
+	mod := 1
+	for i := 0; i < count; i++ {
+		if mod > maxInt/10 {
+			return n
+		}
+		mod *= 10
 	}
-	return val
+	return n % mod
 }
 
 func countDigits(s string) int {
@@ -208,9 +214,7 @@ func needMarker(t time.Time, body string) {
 			widths[countDigits(l)] = true
 		}
 		for w := range widths {
-			if p := pow10(w); p != 0 {
-				ns = append(ns, y%p)
-			}
+			ns = append(ns, lastDigits(y, w))
 		}
 	case 'M':
 		ns = append(ns, int(t.Month()))
@@ -241,11 +245,14 @@ func needMarker(t time.Time, body string) {
 		_, off := t.Zone()
 		h := off / 3600
 		m := off % 3600 / 60
-		am := m
+		am, ah := m, h
 		if am < 0 {
 			am = -am
 		}
-		ns = append(ns, h, h*100+m, am)
+		if ah < 0 {
+			ah = -ah
+		}
+		ns = append(ns, ah, ah*100+am, am)
 	}
 	for l := range layouts {
 		for _, n := range ns {
